@@ -131,6 +131,11 @@ func goalDelivered(r *rig) bool { return r.c03Goal() == "" }
 
 // ---------------------------------------------------------------- C08
 
+func slowReads(c rigConf) rigConf {
+	c.SlowRead = true
+	return c
+}
+
 func TestC08Env(t *testing.T) {
 	envT = t
 	rep := vh.NewReport("C08", "failed requests on the wire (E-ENV)")
@@ -142,7 +147,8 @@ func TestC08Env(t *testing.T) {
 	for _, sc := range []struct {
 		name string
 		conf rigConf
-	}{{"3 files, 2 threads", confTwoThreads()}, {"2 files, 1 thread", confOneThread()}, {"2 files, 1 thread, daemon", asDaemon(confOneThread())}} {
+	}{{"3 files, 2 threads", confTwoThreads()}, {"2 files, 1 thread", confOneThread()}, {"2 files, 1 thread, daemon", asDaemon(confOneThread())},
+		{"3 files, 2 threads, source files read slowly (payloads of the two threads encoded at the same time)", slowReads(confTwoThreads())}} {
 		sc := sc
 		e := &vh.Env{Rep: rep, Scenario: sc.name, MaxDev: maxDev,
 			Run: func(plan []vh.Deviation) vh.EnvRun {
